@@ -81,7 +81,8 @@ def cases_for(tier, seed):
             pat = "".join(pat)
             if "n" not in pat or ("k" not in pat and "c" not in pat):
                 continue
-            cases.append(chain_case("c%s" % pat, pat, crash=False))
+            # short histories also with a directory image after every file-system call (a kill there)
+            cases.append(chain_case("c%s" % pat, pat, crash=(length <= (3 if tier == "quick" else 4))))
     for n_dbs in (1, 2, 3, 4):
         for i in range(25 if tier == "quick" else 300):
             cases.append(gen_case("h%d" % n, rnd, n_dbs, rnd.randint(3, 9 if tier == "quick" else 14), crash=(i % 3 == 0)))
